@@ -64,6 +64,41 @@ type Server struct {
 	BanList         BanMgr
 
 	MessageBoard io.ReadWriteSeeker
+
+	// MessageBoard and Agreement each have a single read cursor that is shared by every caller, so a Seek followed by
+	// reads must not interleave with another reader's (or with a post): textMu serializes those sequences.
+	textMu sync.Mutex
+}
+
+// ReadMessageBoard returns the complete current text of the message board.
+func (s *Server) ReadMessageBoard() ([]byte, error) {
+	s.textMu.Lock()
+	defer s.textMu.Unlock()
+
+	_, _ = s.MessageBoard.Seek(0, 0)
+
+	return io.ReadAll(s.MessageBoard)
+}
+
+// PostMessageBoard adds a post to the message board.
+func (s *Server) PostMessageBoard(post []byte) error {
+	s.textMu.Lock()
+	defer s.textMu.Unlock()
+
+	_, err := s.MessageBoard.Write(post)
+
+	return err
+}
+
+// readAgreement returns the complete text of the server agreement.
+func (s *Server) readAgreement() []byte {
+	s.textMu.Lock()
+	defer s.textMu.Unlock()
+
+	_, _ = s.Agreement.Seek(0, 0)
+	data, _ := io.ReadAll(s.Agreement)
+
+	return data
 }
 
 type Option = func(s *Server)
@@ -477,8 +512,7 @@ func (s *Server) handleNewConnection(ctx context.Context, rwc io.ReadWriteCloser
 			c.Server.outbox <- NewTransaction(TranShowAgreement, c.ID, NewField(FieldNoServerAgreement, []byte{1}))
 		}
 	} else {
-		_, _ = c.Server.Agreement.Seek(0, 0)
-		data, _ := io.ReadAll(c.Server.Agreement)
+		data := c.Server.readAgreement()
 
 		c.Server.outbox <- NewTransaction(TranShowAgreement, c.ID, NewField(FieldData, data))
 	}
